@@ -2003,10 +2003,20 @@ class Workflow(Trellis):
         # Check overlap before the recycle short-circuit below,
         # so it applies uniformly to a fresh definition and a re-definition.
         step_label = Step.adjust_label(command, workdir)
-        if isinstance(creator, Step) and creator.label == step_label:
-            # An attached step is caught by `_raise_if_step_exists` below,
-            # but a step that was detached while it runs would be recycled as its own creator.
-            raise GraphError(f"Step ({step_label}) cannot define itself.")
+        # An attached step is caught by `_raise_if_step_exists` below,
+        # but a step that was detached while it runs (or one of its detached creators)
+        # would be recycled as a product of the step it (indirectly) created:
+        # a cycle of creators, on which every recursive query over products never ends.
+        ancestor = creator
+        while isinstance(ancestor, Step):
+            if ancestor.label == step_label:
+                if ancestor.i == creator.i:
+                    raise GraphError(f"Step ({step_label}) cannot define itself.")
+                raise GraphError(
+                    f"Step ({creator.label}) cannot define step ({step_label}), "
+                    "which (indirectly) created it."
+                )
+            ancestor = ancestor.creator()
         self._raise_if_glob_match(step_label, out_paths + vol_paths)
 
         # If a compatible detached step is found, fully recycle it, instead of creating a new one.
